@@ -321,6 +321,7 @@ func (e *Exec) lookup(s *State, x *ssa.Lookup) Value {
 		m := e.val(s, x.X).(*Node)
 		k := e.val(s, x.Index).(*Node)
 		v := e.mapGet(s, mt, m, k)
+		e.assumeValInv(s, v, mt.Elem())
 		if x.CommaOk {
 			return &TupleV{E: []Value{v, e.mapHas(s, mt, m, k)}}
 		}
@@ -344,6 +345,7 @@ func (e *Exec) mapUpdate(s *State, x *ssa.MapUpdate) {
 	if e.safety {
 		e.addObl(s, e.oblName("safety/nil-map"), "safety", Not(Eq(m, IntLit(0))), x.Pos(), "assignment to entry in nil map")
 	}
+	e.assertValInv(s, e.val(s, x.Value), x.Value.Type(), x, "stored into a map")
 	e.mapSet(s, mt, m, k, e.val(s, x.Value))
 }
 
@@ -417,6 +419,7 @@ func (e *Exec) rangeNext(s *State, x *ssa.Next) Value {
 			e.written["ghostvar:"+gk] = true
 		}
 		v := e.mapGet(s, mt, m, k)
+		e.assumeValInv(s, v, mt.Elem())
 		return &TupleV{E: []Value{ok, k, v}}
 	}
 	// string iteration: rune decoding not modelled
